@@ -68,7 +68,47 @@ def observe(light_set, n, g):
     # the VM's own step through the members of a group (VmDiscover.dnextm), forwards and backwards, from every probe value -
     # also from names that are not (or no longer) members: the nearest remaining member comes next
     obs['gnext'], obs['gprev'] = member_steps(gnames, g, n)
+    # ... and the VM's other three iteration instructions: where an iteration starts (disc over lights / groups, discm over a
+    # group's members, either direction) and the step over all lights / all groups from every probe value (dnext)
+    obs.update(vm_steps(gnames, g, n))
     return obs
+
+
+def vm_steps(gnames, g, n):
+    none = {'vstart': [-1] * 4, 'vnext': [-1] * (n + 2), 'vprev': [-1] * (n + 2), 'vgnext': [-1] * (g + 2), 'vgprev': [-1] * (g + 2),
+            'mfirst': [-1] * g, 'mlast': [-1] * g}
+    try:
+        from bardolph.vm.machine import Registers
+        from bardolph.vm.vm_codes import Operand
+        from bardolph.vm.vm_discover import VmDiscover
+        reg = Registers()
+        walker = VmDiscover(None, reg)
+    except BaseException:
+        return none
+    light = lambda r: idx_of(r) if isinstance(r, str) else 0
+    group = lambda r: int(r[1:]) if isinstance(r, str) else 0
+    out = {'vstart': [], 'vnext': [], 'vprev': [], 'vgnext': [], 'vgprev': [], 'mfirst': [], 'mlast': []}
+    for oper, conv in ((Operand.LIGHT, light), (Operand.GROUP, group)):
+        for forward in (True, False):
+            reg.operand, reg.disc_forward = oper, forward
+            walker.disc()
+            out['vstart'].append(conv(reg.result))
+    for forward, key in ((True, 'vnext'), (False, 'vprev')):
+        for p in range(0, n + 2):
+            reg.operand, reg.disc_forward = Operand.LIGHT, forward
+            walker.dnext(name_of(p))
+            out[key].append(light(reg.result))
+    for forward, key in ((True, 'vgnext'), (False, 'vgprev')):
+        for p in range(0, g + 2):
+            reg.operand, reg.disc_forward = Operand.GROUP, forward
+            walker.dnext('g%d' % p)
+            out[key].append(group(reg.result))
+    for forward, key in ((True, 'mfirst'), (False, 'mlast')):
+        for k in range(1, g + 1):
+            reg.operand, reg.disc_forward = Operand.GROUP, forward
+            walker.discm('g%d' % k)
+            out[key].append(light(reg.result))
+    return out
 
 
 def member_steps(gnames, g, n):
@@ -123,7 +163,9 @@ def replay(hist, n, g, max_age):
                 raised = True
                 obs = {'names': [], 'count': 0, 'group_names': [], 'loc_names': [], 'group_members': [], 'loc_members': [],
                        'reported': [], 'next': [0] * (n + 2), 'prev': [0] * (n + 2), 'absent_group': [True] * (g + 1), 'error': repr(ex),
-                       'gnext': [[0] * (n + 2)] * g, 'gprev': [[0] * (n + 2)] * g}
+                       'gnext': [[0] * (n + 2)] * g, 'gprev': [[0] * (n + 2)] * g,
+                       'vstart': [-1] * 4, 'vnext': [-1] * (n + 2), 'vprev': [-1] * (n + 2), 'vgnext': [-1] * (g + 2),
+                       'vgprev': [-1] * (g + 2), 'mfirst': [-1] * g, 'mlast': [-1] * g}
             snap = step['snap'] if step['snap'] else [0]
             steps.append({'a': kind, 'snap': snap, 'raised': raised})
             observations.append(obs)
